@@ -22,6 +22,7 @@ CONSTANTS
   OverflowWrapped = TRUE
   InstOffsetAll = TRUE
   OpenPrecheck = TRUE
+  EmbLexerClone = TRUE
 INVARIANT TypeOK
 INVARIANT ImplRefinesReq
 INVARIANT PositionFileOK
